@@ -96,6 +96,7 @@ SrcItem(it) ==
     [] it.k = "l" -> <<"[[">> \o SrcJoin(it.args, 1) \o <<"]]">>
     [] it.k = "x" -> <<"[", "http://x.y", "SP">> \o Src(it.c) \o <<"]">>
     [] it.k = "p" -> <<"{{{">> \o it.name \o (IF it.hasDef THEN <<"|">> \o Src(it.def) ELSE <<>>) \o <<"}}}">>
+    [] it.k = "pc" -> <<"{{{">> \o Src(it.name) \o (IF it.hasDef THEN <<"|">> \o Src(it.def) ELSE <<>>) \o <<"}}}">>
     [] it.k = "c" -> <<"{{", it.name>> \o SrcArgs(it.args, 1) \o <<"}}">>
     [] it.k = "if" -> <<"{{", "#if:">> \o Src(it.c) \o <<"|">> \o Src(it.y) \o <<"|">> \o Src(it.n) \o <<"}}">>
     [] it.k = "eq" -> <<"{{", "#ifeq:">> \o Src(it.a) \o <<"|">> \o Src(it.b) \o <<"|">> \o Src(it.y)
@@ -204,6 +205,19 @@ ExpItem(it, f, ea, st, X) ==
                  THEN LET s3 == Pop(Push(s1, Lbl("ARG-DEFVAL")))
                       IN Exp(it.def, f, ea, s3, X)
                  ELSE R(<<"{{{">> \o key \o <<"}}}">>, s1)
+    (* ---- {{{computed name|default}}}: the name is expanded (expand_all) under ARG-NAME -- *)
+    [] it.k = "pc" ->
+         LET s0 == IF f.top THEN Push(st, Lbl("ARGVAL-NO-TEMPLATE")) ELSE st
+             e == Exp(it.name, f, TRUE, Push(s0, Lbl("ARG-NAME")), X)
+             s1 == Pop(e.st)
+             key == Trim(e.out)
+             Fin(s) == IF f.top THEN Pop(s) ELSE s
+         IN IF ~f.top /\ HasKey(f, key) THEN R(ValueOf(f, key), s1)
+            ELSE IF it.hasDef
+                 THEN LET s3 == Pop(Push(s1, Lbl("ARG-DEFVAL")))
+                          d == Exp(it.def, f, ea, s3, X)
+                      IN R(d.out, Fin(d.st))
+                 ELSE R(<<"{{{">> \o key \o <<"}}}">>, Fin(s1))
     (* ---- {{name|args}} ---------------------------------------------------- *)
     [] it.k = "c" ->
          IF Len(st.stack) >= DepthLimit
